@@ -378,3 +378,54 @@ def forward_correlated_filter(f, pt):
     if not blocked:
         return None
     return lambda b, k: (b, k) not in blocked
+
+
+def must_fact(f, gen_edge, kill, entry=False):
+    """forward must-dataflow of one boolean fact: established on branch edges (gen_edge(block, succ_index) -> True),
+    destroyed by statements (kill(point, stmt) -> True), joined with AND.  Returns {point: fact-before-point}."""
+    def transfer(pt, e, st):
+        if e[0] == 'S' and st and kill(pt, f.stmts[e[1]]):
+            return False
+        return st
+
+    def edge(b, k, st):
+        if gen_edge(b, k):
+            return True
+        return st
+    inn, before = f.cfg.forward(entry, transfer, lambda a, b: a and b, edge=edge)
+    return before
+
+
+def zero_test_edge(f, blk, k, is_subject):
+    """does taking successor k of block blk establish `subject == 0` ?  (subject recognised by is_subject(expr id))"""
+    if blk.cond is None or len(blk.succ) != 2:
+        return False
+    cs = f.s(f.strip_casts(blk.cond))
+    neg = False
+    while cs and cs['k'] == 'UnaryOperator' and cs.get('op') == '!':
+        neg = not neg
+        cs = f.s(f.strip_casts(cs['ch'][0]))
+    if cs is None:
+        return False
+    if is_subject(cs['i']):
+        # `if (x)` : zero on the false edge
+        zero_on = 0 if neg else 1
+        return k == zero_on
+    if cs['k'] == 'BinaryOperator' and cs.get('op') in ('==', '!=', '>', '<=', '<', '>='):
+        l, r = cs['ch']
+        lz = f.s(f.strip_casts(l)).get('cv') == 0
+        rz = f.s(f.strip_casts(r)).get('cv') == 0
+        op = cs['op']
+        if is_subject(f.strip_casts(l)) and rz:
+            pass
+        elif is_subject(f.strip_casts(r)) and lz:
+            op = {'>': '<', '<': '>', '>=': '<=', '<=': '>=', '==': '==', '!=': '!='}[op]
+        else:
+            return False
+        # subject OP 0 (subject unsigned)
+        zero_true = op in ('==', '<=')        # true edge means zero
+        zero_false = op in ('!=', '>')        # false edge means zero
+        if neg:
+            zero_true, zero_false = zero_false, zero_true
+        return (k == 0 and zero_true) or (k == 1 and zero_false)
+    return False
